@@ -6,6 +6,7 @@ import (
 	"fmt"
 	"os"
 	"reflect"
+	"strings"
 	"time"
 
 	"github.com/free5gc/go-upf/internal/pfcp"
@@ -426,8 +427,22 @@ func c09Stale(ci int, c *c09StaleCase, res *vh.Result) (finds [][2]string, abort
 			add(vh.FaultSig(fs[0]), "fatal: "+fs[0])
 			return finds, "", ""
 		}
-		// the server no longer answers (its loop is blocked: C18's subject, not decided here); stopping it would
-		// hang as well, so this worker process is given up and the run continues in a fresh one
+		// the server no longer answers: its loop is blocked. Whether a loop can be wedged is C18's subject and not
+		// decided here - with one exception that needs no waiting: the loop sitting *for ever* (operation on a nil
+		// channel, empty select: nothing can wake it) inside the handling of a UPF-initiated transaction, i.e. matching
+		// or retiring a request is what stopped the server. Anything else stays inconclusive. Stopping the server
+		// would hang as well, so this worker process is given up and the run continues in a fresh one.
+		for _, g := range upfGoroutines() {
+			if blockedForever(g.State) && (strings.Contains(g.Inner, "pfcp.(*TxTransaction)") || strings.Contains(g.Own, "pfcp.(*TxTransaction)")) {
+				res.Violate(ci, "C09:transaction-handling-blocks-for-ever:"+strings.ReplaceAll(g.State, " ", "-")+"@"+shortFn(g.Own),
+					fmt.Sprintf("after the answers to requests whose retransmission timer had already fired were handled, the UPF stopped answering: goroutine %s is blocked for ever (%s) in %s", g.Role, g.State, g.Inner),
+					map[string]interface{}{"case": c, "goroutine": g})
+				res.Eval("")
+				res.NextCase = ci + 1
+				res.Write(false)
+				os.Exit(3)
+			}
+		}
 		res.Inconc(fmt.Sprintf("case %d: the UPF stopped answering after the held loop was released (marker heartbeat unanswered for 5 s)", ci))
 		res.Eval("")
 		res.NextCase = ci + 1
